@@ -216,6 +216,19 @@ pub fn images(rng: &mut SmallRng, cfg: &RCfg, n: usize) -> Vec<Vec<u8>> {
         *l |= 0x81;
     }
     let mut v = vec![first];
+    if cfg.kind == "unbuf" {
+        // long zero runs (a one every 150..250 bits): unary reads that cross whole words from every offset
+        let mut sparse = vec![0u8; nbytes];
+        let mut p = rng.random_range(100..200usize);
+        while p < 8 * nbytes {
+            sparse[p / 8] |= 1 << (p % 8);
+            p += rng.random_range(150..250usize);
+        }
+        if let Some(l) = sparse.last_mut() {
+            *l |= 0x81;
+        }
+        v.push(sparse);
+    }
     if n >= 2 {
         v.push(vec![0xFFu8; nbytes]);
     }
